@@ -84,20 +84,20 @@ class World:
         return random.Random(int.from_bytes(h[:8], "big"))
 
     # ---- event log (never draws, never reads a clock)
-    def log(self, kind, **data):
+    def log(self, kind, /, **data):
         self.seq += 1
         self.events.append([self.seq, kind, canon(data)])
         return self.seq
 
-    def step(self, kind, **data):
+    def step(self, kind, /, **data):
         self.steps += 1
         return self.log("step:" + kind, **data)
 
-    def fault(self, kind, **data):
+    def fault(self, kind, /, **data):
         self.faults[kind] += 1
         return self.log("fault:" + kind, **data)
 
-    def seam(self, kind, **data):
+    def seam(self, kind, /, **data):
         self.seams[kind] += 1
         return self.log("seam:" + kind, **data)
 
